@@ -10,6 +10,8 @@ import Dawn.Model.Build
     crash <root> <always> <fails> <k> <order>          → <crashed|completed> H=… R=… G=… T=… I=…
     crashload <k> <temporaries found>                  → ok R=… G=… T=? I=…   (temporaries in flight: not compared)
     gc <preferIndex>                                   → ok R=… G=… T=… I=…
+    load <preferIndex>                                 → ok R=… G=… T=… I=…          (a process that only loads the project)
+    temps <n>                                          → ok                            (n stray entries dropped into temp)
     path <kind hex> <pkg hex> <name hex>               → <dir hex> <file hex>      (targetInfoPath)
     sum <d n:c,…> <d n:c,…>                            → eq | ne                    (dirSum: equal sums?)
     opts <prev always> <prev dry> nil | <always> <dry>  → <always> <dry>             (RunOptions.apply)
@@ -169,6 +171,13 @@ def step (s : DSt) (line : String) : DSt × String :=
       let (s', ws) := showWorld s { w with temps := 0 }
       ({ s' with w := { w with temps := seen } }, s!"ok {ws.replace "T=0" "T=?"}")
     | _, _ => (s, "bad-input")
+  | ["load", pi] =>
+    let (s', ws) := showWorld s (loadOp s.tree (flag pi) s.w)
+    (s', s!"ok {ws}")
+  | ["temps", n] =>
+    match n.toNat? with
+    | some n => ({ s with w := { s.w with temps := s.w.temps + n } }, "ok")
+    | none => (s, "bad-input")
   | ["gc", pi] =>
     let (s', ws) := showWorld s (gc s.tree (flag pi) s.w)
     (s', s!"ok {ws}")
